@@ -86,6 +86,11 @@ def run(a):
     prev = json.load(open(rf)) if os.path.exists(rf) else {"runs": []}
     prev["runs"] = [x for x in prev["runs"] if not any(x["check"] == r["check"] and x["tier"] == r["tier"] and x["seed"] == r["seed"] for r in results)] + results
     prev["caught_by"] = sorted({x["check"] for x in prev["runs"] if x["exit"] == 1 and x["violations"]})
+    # every run ever made, oldest first (a check that missed the change and was strengthened afterwards shows up twice)
+    rev = sh(["git", "-C", VERIF, "log", "-1", "--format=%h"]).stdout.strip()
+    for r in results:
+        prev.setdefault("history", []).append({"verif_commit": rev, "time": time.strftime("%Y-%m-%dT%H:%M:%SZ", time.gmtime()), "check": r["check"], "tier": r["tier"],
+                                               "seed": r["seed"], "exit": r["exit"], "violations": r["violations"]})
     with open(rf, "w") as f:
         json.dump(prev, f, indent=1)
     return 0
